@@ -254,7 +254,43 @@ func (c *Ctx) Parallel(n int, workers int, job func(i int)) {
 }
 
 // Explore is the generic exploration loop: n seeded plans, each executed and judged by the oracle.
+// regressionPlans: minimised plans of violations found earlier by a thorough tier and repaired since
+// (regress/<ID>-*.json, replay-file format). They are executed first in every tier: a seeded search may need
+// thousands of schedules to meet the same interleaving again, the recorded one meets it at once (as long as the
+// code around it keeps its shape).
+func (c *Ctx) regressionPlans() []*plan.Plan {
+	files, _ := filepath.Glob(filepath.Join(c.Root, "regress", c.Check.ID+"-*.json"))
+	sort.Strings(files)
+	var out []*plan.Plan
+	for _, f := range files {
+		b, err := os.ReadFile(f)
+		if err != nil {
+			continue
+		}
+		var rf replayFile
+		if json.Unmarshal(b, &rf) == nil && rf.Plan != nil {
+			rf.Plan.Note = "regression plan " + filepath.Base(f)
+			out = append(out, rf.Plan)
+		}
+	}
+	return out
+}
+
 func (c *Ctx) Explore(n int, gen func(r *rand.Rand, i int) *plan.Plan, account func(res *RunResult) (key string, nontrivial bool, sample any)) {
+	reg := c.regressionPlans()
+	c.Parallel(len(reg), 0, func(i int) {
+		p := reg[i]
+		res, err := c.Check.exec(p)
+		if err != nil || harnessTrouble(res) != "" {
+			return
+		}
+		defer res.Cleanup()
+		vs := c.Check.Oracle(res)
+		key, nt, sample := account(res)
+		c.Account(res, key, nt, sample)
+		c.Probe("regression_plans_run", 1)
+		c.Report(p, vs)
+	})
 	c.Parallel(n, 0, func(i int) {
 		r := c.Rng(uint64(i) + 1)
 		p := gen(r, i)
